@@ -135,6 +135,7 @@ void *zuser_malloc(int_t bytes, int_t which_end)
         stack.used += bytes;
         
      end: ;
+	SLU_MT_VERIF_EVENT(SLU_EV_STACK, -1, (buf ? 1 : 2), bytes, which_end, &stack);
     } /* ---- end critical section ---- */
 
 #if ( MACH==PTHREAD ) /* Use pthread ... */
@@ -157,6 +158,7 @@ void zuser_free(int_t bytes, int_t which_end)
         if ( which_end == HEAD ) stack.top1 -= bytes;
         else stack.top2 += bytes;
         stack.used -= bytes;
+	SLU_MT_VERIF_EVENT(SLU_EV_STACK, -1, 3, bytes, which_end, &stack);
     }
 
 #if ( MACH==PTHREAD ) /* Use pthread ... */
@@ -474,6 +476,7 @@ pzgstrf_WorkInit(int_t n, int_t panel_size, int_t **iworkptr, doublecomplex **dw
               {
 	        stack.top2 -= extra;
 	        stack.used += extra;
+	        SLU_MT_VERIF_EVENT(SLU_EV_STACK, -1, 4, extra, TAIL, &stack);
 	      }
 #if ( MACH==PTHREAD ) /* Use pthread ... */
         pthread_mutex_unlock( &stack.lock );
@@ -523,6 +526,7 @@ void pzgstrf_WorkFree(int_t *iwork, doublecomplex *dwork, GlobalLU_t *Glu)
         {
 	    stack.used -= (stack.size - stack.top2);
 	    stack.top2 = stack.size;
+	    SLU_MT_VERIF_EVENT(SLU_EV_STACK, -1, 5, 0, TAIL, &stack);
 	    
 	    /*	pzgstrf_StackCompress(Glu);  */
         }
